@@ -13,6 +13,13 @@ static uint8_t BLOB[70000];
 static uint64_t evals;
 static e1_cfg pseudo;
 static size_t P;            /* per-frame payload capacity */
+static int pre_code;        /* 0: fresh responder; 1..3: another station (M2) is the active mapper (Discover [, its own QueryLargeTlv [, Query]]) */
+static void pre_steps(int code, uint8_t type, uint8_t tos) {
+    if (!code) return;
+    pev d = ev_discover(0, ST_M2, ST_M2, 0x0707, 0x0222); vf_trace_clear(); drv_linux(&d, 0);
+    if (code >= 2) { pev q = ev_qlt(tos, ST_M2, ST_M2, 0x0333, type, 0); vf_trace_clear(); drv_linux(&q, 0); }
+    if (code == 3) { pev q = ev_query(0, ST_M2, ST_M2, 0x0444); vf_trace_clear(); drv_linux(&q, 0); }
+}
 
 static void set_blob(uint8_t type, size_t size) {
     if (type == 0x0E) { W.host.icon = BLOB; W.host.icon_size = size; W.host.icon_ok = 1; }
@@ -24,8 +31,8 @@ static const uint8_t *blob_of(uint8_t type) { return type == 0x0E ? BLOB : type 
 /* one request; returns payload length delivered, sets *more; -1 if not answered */
 static int request(uint8_t type, size_t size, uint16_t off, uint16_t seq, uint8_t tos, int bridged, int *more_out, int known) {
     static uint8_t f[64];
-    static int p[8]; p[0] = type; p[1] = (int)size; p[2] = off; p[3] = seq; p[4] = tos; p[5] = bridged; p[6] = known;
-    e1_manual_path(&pseudo, p, 7);
+    static int p[8]; p[0] = type; p[1] = (int)size; p[2] = off; p[3] = seq; p[4] = tos; p[5] = bridged; p[6] = known; p[7] = pre_code;
+    e1_manual_path(&pseudo, p, 8);
     const uint8_t *own = W.iface[0].mac;
     fb_qlt(f, own, vf_station[bridged ? ST_BR : ST_M1], own, vf_station[ST_M1], tos, seq, type, off);
     vf_trace_clear();
@@ -94,15 +101,17 @@ static size_t grid_offsets(size_t size, size_t *out) {
     return m;
 }
 
-static int staged[8], nst;
+static int staged[9], nst;
 static void ps_name(int ev, char *b, size_t cap) { snprintf(b, cap, "arg(%d)", ev); }
 static void ps_root(void) { nst = 0; }
 static void ps_apply(int ev) {
     staged[nst++] = ev;
-    if (nst < 7) return;
+    if (nst < 8) return;
     nst = 0;
     vf_world_reset();
+    set_blob(0x0E, 3000); set_blob(0x11, 3000); set_blob(0x13, 40);
     set_blob((uint8_t)staged[0], (size_t)staged[1]);
+    pre_steps(staged[7], (uint8_t)staged[0], (uint8_t)staged[4]);
     int more = 0;
     int L = request((uint8_t)staged[0], (size_t)staged[1], (uint16_t)staged[2], (uint16_t)staged[3], (uint8_t)staged[4], staged[5], &more, staged[6]);
     printf("    QueryLargeTlv(type 0x%02x, platform size %d, offset %d, seq 0x%04x, tos %d, %s) -> %d payload bytes, more=%d\n", staged[0], staged[1], staged[2], staged[3], staged[4], staged[5] ? "bridged" : "direct", L, more);
@@ -151,6 +160,17 @@ int main(int argc, char **argv) {
                 vf_world_reset(); set_blob(0x0E, 3000); set_blob(0x11, 3000); set_blob(0x13, 40);
                 request((uint8_t)type, size, (uint16_t)o4[oi], seqs[si], (uint8_t)tos, br, NULL, known);
             }
+        }
+        /* two stations: M2 is the active mapper (accepted Discover, own sequence numbers), then M1 requests a
+         * large property: the response must carry THIS request's sequence number and the platform's bytes */
+        for (int type_i = 0; type_i < 3; type_i++) for (int via = 0; via < 3; via++) for (int tos = 0; tos < 2; tos++) {
+            static const uint8_t ty[3] = {0x0E, 0x11, 0x13};
+            vf_world_reset(); set_blob(0x0E, 3000); set_blob(0x11, 3000); set_blob(0x13, 40);
+            pre_code = via + 1; pre_steps(pre_code, ty[type_i], (uint8_t)tos);
+            size_t size = ty[type_i] == 0x13 ? 40 : 3000;
+            request(ty[type_i], size, 0, 0x0101, (uint8_t)tos, 0, NULL, 1);
+            request(ty[type_i], size, (uint16_t)(size / 2), 0x7000, (uint8_t)tos, 1, NULL, 1);
+            pre_code = 0;
         }
         vf_sample("icon/friendly name: %zu sizes (0..3, k*P-2..k*P+2, 32766..32768; P=%zu) x boundary offsets, ToS 0/1, direct/bridged; reassembly for each size", ns, P);
         vf_sample("hardware id: every even size 0..64 x offsets; all 256 property types x 4 offsets x 2 ToS x seq{0,1,0xFFFF} x direct/bridged");
